@@ -199,6 +199,7 @@ def form_d(draw):
         "inds": inds,
         "sizes": {str(k): v for k, v in sizes.items()},
         "aseed": draw(st.integers(0, 99)),
+        "label_type": draw(st.sampled_from(["int", "int", "tuple", "numpy"])),
     }
 
 
@@ -329,8 +330,17 @@ def run_case(spec, sub=None):
         arrays = ref.make_arrays(inds, sizes, spec["aseed"], "f")
         output = tuple(sorted({ix for t in inds for ix in t if ix < 0}, reverse=True))
         exp = ref.dense_ref(inds, output, sizes, arrays)
-        ok, got = guarded(ctg.ncon, arrays, [list(t) for t in inds], **kw)
-        what = f"ncon({[list(t) for t in inds]})"
+        lt = spec.get("label_type", "int")
+        if lt == "numpy":
+            # label lists as integer arrays (numpy.int64 labels)
+            arg = [np.array(t, dtype=np.int64) for t in inds]
+        elif lt == "tuple":
+            arg = [tuple(t) for t in inds]
+        else:
+            arg = [list(t) for t in inds]
+        cls.append(f"ncon_labels={lt}")
+        ok, got = guarded(ctg.ncon, arrays, arg, **kw)
+        what = f"ncon({[list(t) for t in inds]}, labels as {lt})"
         if not ok:
             viol.append(f"{what} raised {got}")
         else:
